@@ -118,6 +118,7 @@ def _c06_c02():
              "MODE_PROMOTED": "any Value; the generic twin runs on float-promoted operands (a guarded float opcode is defined as 'treat ints as floats')",
              "MODE_NOFLOAT": "any Value except floats (float * / % kernels do not finish in CBMC)",
              "MODE_PROMOTED_SMALL_RIGHT": "left operand any Value, right operand an int in -8..=8, one of the floats 0.5, 2.0, -1.5, inf, or a non-number; generic twin on float-promoted operands (two full-width symbolic float multipliers/dividers do not finish)",
+             "MODE_INTS_SMALL_RIGHT": "left operand any int, right operand an int in -16..=16 (two full-width symbolic multipliers/dividers do not finish)",
              "MODE_NONAN": "any Value except NaN", "MODE_PROMOTED_NONAN": "any Value except NaN; generic twin on float-promoted operands"}
     for p in prs:
         ob("C06", "P%03d" % p["top"], "runtime", "shell.rs", p["harness"], path=SHELL_PATH + p["harness"],
@@ -306,3 +307,22 @@ ob("C01", "Unegf", "opt", "fold.rs", "c01_fold_unary_neg_float", path=FOLD_PATH 
 ob("C01", "Uint", "opt", "fold.rs", "c01_fold_unary_int", path=FOLD_PATH + "c01_fold_unary_int", tier="quick", timeout=600,
    what="unary minus / bitwise not on an int literal fold to the VM's 48-bit result, and only for representable operands", functions=["aelys_opt ConstantFolder::try_fold_unary"],
    bounds="all i64", stubs=[])
+
+# (c13_o3_makeclosure_ptr is not registered: no verdict in 1800 s even through the heap-pointer constant path - MakeClosure clones the
+#  callee's upvalue descriptors and allocates two objects; a MakeClosure handler that collects inside a region is therefore NOT caught
+#  by a solver obligation - the syntactic report below flags direct collect()/mark()/sweep() calls in handlers, informational only)
+
+
+def _syn_no_direct_collect(repo, gen):
+    """informational (not deciding): opcode handlers should reach the collector only through maybe_collect()"""
+    import glob, re, os
+    hits = []
+    for f in sorted(glob.glob(os.path.join(repo, "runtime/src/vm/dispatch/ops/*.inc"))):
+        for n, line in enumerate(open(f), 1):
+            code = line.split("//")[0]
+            if re.search(r"\bself\.collect\(|\.heap\.mark\(|\.heap\.sweep\(", code):
+                hits.append("%s:%d" % (os.path.basename(f), n))
+    return {"name": "handlers call maybe_collect(), never collect()/mark()/sweep() directly", "ok": not hits, "detail": ", ".join(hits)}
+
+
+SYNTACTIC.setdefault("C13", []).append(_syn_no_direct_collect)
